@@ -121,10 +121,13 @@ def gen_configs(ctx, quick):
     extra += cauth
     # DHE over a group whose prime has ODD byte length (129 bytes): odd-length premaster secret for the
     # TLS 1.0/1.1 PRF split; several runs each, the secrets differ
+    # ... and over a group whose prime is 2**1024 + 0x283 (top byte 0x01): the shared secret Z practically always
+    # has a leading zero byte, which RFC 5246 8.1.2 strips before the PRF (canonicalisation boundary, forced)
     for v in (1, 2, 3):
         for fam, key, ostr in (('dhe_rsa', 'rsa', 'kDHE+aRSA'), ('dhe_dsa', 'dsa', 'kDHE+aDSS')):
-            for rep_ in range(2 if quick else 6):
-                extra.append(dict(base, server_key=key, tl_min=v, tl_max=v, ossl_min=v, ossl_max=v, dh='odd1032',
+          for dhk, reps in (('odd1032', 2 if quick else 6), ('lz1025', 1 if quick else 4)):
+            for rep_ in range(reps):
+                extra.append(dict(base, server_key=key, tl_min=v, tl_max=v, ossl_min=v, ossl_max=v, dh=dhk,
                                   tl_keyExchangeNames=[fam], ossl_ciphers=ostr + ':@SECLEVEL=0', family=fam, rep=rep_,
                                   payloads=[0, 1, 3000]))
     # groups
@@ -154,6 +157,22 @@ def gen_configs(ctx, quick):
     for c in extra:
         for role in ('tl_client', 'tl_server'):
             cfgs.append(dict(c, role=role))
+    # TLS 1.3 resumption (ticket PSK) x HelloRetryRequest, in both roles: the client's key_share names a group the
+    # server does not take, so the ClientHello carrying the PSK binders is sent twice.  tl_client: OpenSSL server
+    # restricted to one group the tlslite-ng client offers without a key share (OpenSSL's HRR has no cookie);
+    # tl_server: tlslite-ng server restricted to a group OpenSSL supports but sends no share for first.
+    for g, on in (('secp384r1', 'secp384r1'), ('secp521r1', 'secp521r1'), ('x448', 'X448')):
+        for key in (('rsa',) if quick else ('rsa', 'ecdsa')):
+            cfgs.append(dict(base, server_key=key, role='tl_client', resume=2, tickets=True, hrr=g,
+                             tl_eccCurves=['x25519', g], tl_keyShares=['x25519'], ossl_curve=on, payloads=[0, 1, 3000]))
+            cfgs.append(dict(base, server_key=key, role='tl_server', resume=2, tickets=True, hrr=g,
+                             tl_eccCurves=[g], tl_keyShares=[g], payloads=[0, 1, 3000]))
+    import ssl as _ssl
+    if not hasattr(_ssl.SSLContext, 'set_psk_server_callback'):
+        not_covered.append('TLS 1.3 external PSK against OpenSSL: this CPython ssl module has no PSK callbacks; PSK binders are '
+                           'exercised through ticket resumption, also after a HelloRetryRequest')
+    not_covered.append('tl_server x resumption x HelloRetryRequest: on the resumed connection the OpenSSL client sends its key share '
+                       'for the group of the session, so only the first connection of these histories has a HelloRetryRequest')
     for i, c in enumerate(cfgs):
         c['id'] = i
         c['seed'] = rng.randrange(1 << 30)
@@ -289,6 +308,8 @@ def run(ctx):
                 problems.append(('wrong-suite', 'asked for %#x got %#x' % (cfg['suite'], obs['tl_suite'])))
         for k, what in problems:
             tag = 'null-cipher' if 'null' in (cfg.get('tl_cipherNames') or []) else 'v%s' % obs.get('tl_version')
+            if cfg.get('hrr'):
+                tag += ':hrr'
             if ctx.violation('%s:%s:%s' % (k, cfg['role'], tag), what,
                              {'cfg': cfg, 'observed': obs, 'how': './check C07 --replay <this file>'}):
                 found = True
